@@ -606,7 +606,11 @@ impl<'a, 'b> W<'a, 'b> {
                 self.out.push('<');
                 self.out.push_str(&q);
                 self.attrs(&[("type".to_string(), "String".to_string())], 0);
-                let mode = self.lex.pick(4);
+                let mut mode = self.lex.pick(4);
+                if text.contains('\r') {
+                    // a carriage return survives only as a character reference (literal ones are normalised to line feeds)
+                    mode = 1;
+                }
                 if text.is_empty() && mode >= 2 {
                     self.close_start(true);
                     return;
